@@ -13,6 +13,8 @@ pub enum Pol {
     Fork,
     /// zero/identity tests are assumed "non-zero", everything else forks
     ForkNonZero,
+    /// comparisons involving an adversarial value fork, all others are assumed "different"
+    ForkAdv,
 }
 
 pub trait Lab<C: Ciphersuite> {
